@@ -358,11 +358,12 @@ def check_iterators(run, cx, cfg):
             if rec:
                 # recursion only after the channel iterator ran dry, and after clearing the slot
                 k, e = rec[0]
-                if len(chan_next) != 1 or facts_.get(('discr', ('ret', chan_next[0][0]))) != ('int', 0, 'isize') or p['ret'] != ('ret', k):
+                if len(chan_next) != 1 or option_variant(facts_, ('ret', chan_next[0][0])) != 0 or p['ret'] != ('ret', k):
                     bad = bad or 'recurses without the channel iterator having finished: [%s]' % describe_path(p)
                 kinds.add('frame-finished')
             elif not isnone:
-                if len(chan_next) != 1 or p['ret'] != ('agg', ('adt', 'core::option::Option', 1, 'Some'), (('field', ('variant', ('ret', chan_next[0][0]), 1), 0),)):
+                same_option = len(chan_next) == 1 and p['ret'] == ('ret', chan_next[0][0]) and option_variant(facts_, p['ret']) == 1     # handed on as it is, known to be Some
+                if not same_option and (len(chan_next) != 1 or p['ret'] != ('agg', ('adt', 'core::option::Option', 1, 'Some'), (('field', ('variant', ('ret', chan_next[0][0]), 1), 0),))):
                     bad = bad or 'must yield exactly the next channel of the current frame: [%s]' % describe_path(p)
                 kinds.add('sample')
             if bad:
